@@ -37,12 +37,9 @@ def check(ctx):
         ctx.ob("R07.1", f"{k}|wakes-the-addressed-stream", tgt[0] == "param" and tgt[1] == 2, body.loc(wb), f"wake_stream({show(tgt)}); required: the stream id parameter")
         # the stored value is `false` and the index is the parameter
         vals = []; idxs = []
-        for b in body.reachable:
-            for st in body.stmts(b):
-                if st[0] == "A" and st[1]["p"] and any(e != "*" and e[0] in ("i",) for e in st[1]["p"]):
-                    vals.append(strip_casts(dg.expr(st[2][1])) if st[2][0] == "Use" else ("?",))
-                    il = [e[1] for e in st[1]["p"] if e != "*" and e[0] == "i"][0]
-                    idxs.append(strip_casts(dg.local(il)))
+        for (b_, cont_, idx_, rv_) in util.element_stores(body, dg):
+            vals.append(strip_casts(dg.expr(rv_[1])) if rv_[0] == "Use" else ("?",))
+            idxs.append(idx_)
         okv = bool(vals) and all(v == ("const", 0) for v in vals) and all(i[0] == "param" and i[1] == 2 for i in idxs)
         ctx.ob("R07.1", f"{k}|only-the-addressed-flag-is-cleared", okv, site, f"writes {[(show(i), show(v)) for i, v in zip(idxs, vals)]}; required: keep_streams_running[stream_id] = false and nothing else")
     # ------------------------------------------------------------------ R07.2 cancel_all_streams
